@@ -162,6 +162,19 @@ let run_line (line : string) : string =
       | "E", [t; v; h] -> M.OEnc (n_of_int (int_of_string t), fields_of (parse_value v), bytes_of_hex h)
       | "D", [t; v; h] -> M.ODec (n_of_int (int_of_string t), fields_of (parse_value v), bytes_of_hex h)
       | "Z", [t] -> M.OZero (n_of_int (int_of_string t))
+      | "RG", [cs] ->
+        let num s = n_of_int (int_of_string s) in
+        let call tok =
+          let rest = String.sub tok 1 (String.length tok - 1) in
+          match tok.[0] with
+          | 'r' -> (match String.split_on_char ':' rest with
+                    | [k; v] -> M.CRegistry (num k, num v) | _ -> failwith ("bad registry call " ^ tok))
+          | 'b' -> M.CRegistryBad
+          | 'g' -> M.CGet (num rest)
+          | 'x' -> M.CRemove (num rest)
+          | 'c' -> M.CClear
+          | _ -> failwith ("bad registry call " ^ tok) in
+        M.OReg (List.map call (List.filter (fun t -> t <> "") (String.split_on_char ' ' cs)))
       | _ -> failwith ("bad case line: " ^ line) in
     let tid = match o with M.OEnc (t, _, _) | M.ODec (t, _, _) | M.OZero t -> t | _ -> M.N0 in
     let payload = match M.run_op M.gen_world o with
@@ -173,7 +186,12 @@ let run_line (line : string) : string =
       | M.RMsg (M.Ok (fs, buf)) -> "ok\t" ^ string_of_value (M.VObj (tid, fs)) ^ "\t" ^ hex_of_bytes buf
       | M.RMsg (M.Fail f) -> fail_string f
       | M.RZero (Some fs) -> "ok\t" ^ string_of_value (M.VObj (tid, fs))
-      | M.RZero None -> "unmodelled" in
+      | M.RZero None -> "unmodelled"
+      | M.RRets l ->
+        "ok\t" ^ String.concat " " (List.map (function
+          | M.RBool true -> "t" | M.RBool false -> "f"
+          | M.RVal (Some v) -> "v" ^ string_of_int (int_of_n v) | M.RVal None -> "n"
+          | M.RUnit -> "u") l) in
     id ^ "\t" ^ payload
   | _ -> failwith ("bad case line: " ^ line)
 
